@@ -11,6 +11,8 @@ void oracle_misuse_op(const Op& op);      // misuse.cc (C17)
 void oracle_bad_request(const Op& op);    // badreq.cc (C06)
 void oracle_purge_check(const Op& op);    // purge.cc (C18)
 
+static bool forced_abandon_possible() { return H.forced_abandon_possible || mi_option_get(mi_option_target_segments_per_thread) > 0; }
+
 // ---------------------------------------------------------------------------------
 // heap walking (C12) and derived oracles
 // ---------------------------------------------------------------------------------
@@ -54,6 +56,8 @@ static void match_heap_visit(const VisitRec& r, int mh, const char* what) {
     auto it = std::upper_bound(v.begin(), v.end(), b->p, [](const uint8_t* p, const VisitedBlock* x) { return p < x->start; });
     const VisitedBlock* vb = (it == v.begin() ? nullptr : *(it - 1));
     bool enclosed = vb && vb->start <= b->p && b->p + b->usable <= vb->start + vb->size;
+    if (b->heap == mh && !enclosed && forced_abandon_possible()) { b->heap = -1; probe(PR_force_abandon); continue; }
+    if (b->heap >= 0 && b->heap != mh && enclosed && forced_abandon_possible()) { b->heap = -1; probe(PR_force_abandon); }
     if (b->heap == mh) {
       if (!enclosed) sim_violation("visit_missing", "%s: live block #%llu at %p (usable %zu, slot %d) of this heap was not reported by the walk (nearest visited range %p,+%zu)", what, (unsigned long long)b->id, (void*)b->p, b->usable, b->slot, vb ? (void*)vb->start : nullptr, vb ? vb->size : 0);
       hits[(size_t)(it - 1 - v.begin())]++;
@@ -105,6 +109,7 @@ static void do_expect_heap_count(const Op& op) {
   mi_heap_collect(h, op.a != 0);
   VisitRec r; mi_heap_visit_blocks(h, false, &visitor_fn, &r);
   size_t used = 0; for (auto& a : r.areas) used += a.used;
+  if (forced_abandon_possible()) { sched_set_passthrough(true); for (auto& kv : H.live) if (kv.second->heap == mh && !mi_heap_contains_block(h, kv.second->p)) kv.second->heap = -1; sched_set_passthrough(false); }
   size_t model = 0; for (auto& kv : H.live) if (kv.second->heap == mh) model++;
   size_t descr = (H.heaps[mh].kind == HK_BACKING ? live_descriptors(T->prog) : 0);
   // orphans adopted by this heap are legitimately counted by the allocator: count those whose page belongs to the heap
@@ -121,8 +126,6 @@ static void do_expect_heap_count(const Op& op) {
 // ---------------------------------------------------------------------------------
 // ownership queries (O7)
 // ---------------------------------------------------------------------------------
-static bool forced_abandon_possible() { return H.forced_abandon_possible || mi_option_get(mi_option_target_segments_per_thread) > 0; }
-
 static void check_owner_of(Block* b) {
   int claims = 0; int claimer = -1;
   if (b->heap >= 0 && H.heaps[b->heap].prog == T->prog && forced_abandon_possible()) {
@@ -139,9 +142,10 @@ static void check_owner_of(Block* b) {
     if (c) { claims++; claimer = (int)i; }
     bool mine = (b->heap == (int)i);
     if (mine && !c) sim_violation("owner", "mi_heap_contains_block is false for block #%llu (%p) and the heap it was allocated in / migrated to (model heap %zu, kind %d)", (unsigned long long)b->id, (void*)b->p, i, m.kind);
+    if (!mine && c && b->heap != -1 && forced_abandon_possible()) { b->heap = -1; probe(PR_force_abandon); }   // force-abandoned by its owner, adopted here
     if (!mine && c && b->heap != -1) sim_violation("owner", "mi_heap_contains_block is true for block #%llu (%p) and heap %zu (kind %d) although it belongs to model heap %d (thread %d)", (unsigned long long)b->id, (void*)b->p, i, m.kind, b->heap, H.heaps[b->heap].prog);
     if (mine && ((uintptr_t)b->p & 7) == 0 && !mi_heap_check_owned(h, b->p)) sim_violation("owner", "mi_heap_check_owned is false for block #%llu (%p) in its own heap", (unsigned long long)b->id, (void*)b->p);
-    if (!mine && b->heap != -1 && mi_heap_check_owned(h, b->p)) sim_violation("owner", "mi_heap_check_owned is true for block #%llu (%p) in a heap that does not own it", (unsigned long long)b->id, (void*)b->p);
+    if (!mine && b->heap != -1 && !forced_abandon_possible() && mi_heap_check_owned(h, b->p)) sim_violation("owner", "mi_heap_check_owned is true for block #%llu (%p) in a heap that does not own it", (unsigned long long)b->id, (void*)b->p);
   }
   if (claims > 1) sim_violation("owner", "block #%llu (%p) is claimed by %d heaps of thread %d", (unsigned long long)b->id, (void*)b->p, claims, T->prog);
   if (b->heap == -1 && claims == 1) {
@@ -211,6 +215,7 @@ static void do_visit_abandoned(const Op& op) {
     if (it == v.begin()) continue;
     const VisitedBlock& vb = *(it - 1);
     if (vb.start <= b->p && b->p + b->usable <= vb.start + vb.size) {
+      if (b->heap != -1 && forced_abandon_possible()) { b->heap = -1; probe(PR_force_abandon); }
       if (b->heap != -1) sim_violation("visit_foreign", "mi_abandoned_visit_blocks reports block #%llu at %p which belongs to a live heap", (unsigned long long)b->id, (void*)b->p);
       hits[(size_t)(it - 1 - v.begin())]++;
     }
@@ -252,6 +257,7 @@ static void do_footprint_mark(const Op& op) {
   uint64_t mapped = 0, resident = 0;
   for (auto& r : os_regions()) { if (r.donated) continue; mapped += r.len; resident += os_resident_bytes(r.start, r.len); }
   H.fp_mapped.push_back(mapped); H.fp_resident.push_back(resident); H.fp_accessible.push_back(os_accessible_bytes());
+  H.fp_work.push_back(H.work_hash); H.work_hash = 0;
   H.footprint_marks++;
 }
 
@@ -260,6 +266,8 @@ static void do_giveback_check(const Op& op) {
   if (!(op.a & 1)) mi_collect(true);
   if (!H.live.empty()) { H.ops_noop++; return; }
   for (size_t k = 0; k < H.threads.size(); k++) if ((int)k != T->prog && H.threads[k].started && !H.threads[k].done) { H.ops_noop++; return; }
+  for (auto sp : H.subprocs) if (sp) { H.ops_noop++; return; }   // memory abandoned in another sub-process can only be released by a thread of that sub-process
+  if (T->prog != 0) { H.ops_noop++; return; }                     // only the main thread's forced collect releases the thread-metadata cache
   std::vector<ArenaArea> as = all_arena_areas();
   probe(PR_giveback_checked);
   // (1) every region obtained directly from the OS for huge blocks / fallback segments has been unmapped again
@@ -274,17 +282,15 @@ static void do_giveback_check(const Op& op) {
     for (auto& a : as) {
       uint64_t res = os_resident_bytes(a.start, a.size);
       if (res > 0) sim_violation("arena_still_committed", "after everything was freed and mi_collect(true): %llu bytes of arena [0x%llx,+0x%llx) are still resident (committed)", (unsigned long long)res, (unsigned long long)a.start, (unsigned long long)a.size);
-      if (is_padded_build()) {
-        for (uint64_t off = 0; off < a.size; off += (32u << 20)) if (os_range_accessible((void*)(a.start + off), 4096))
-          sim_violation("arena_still_committed", "after everything was freed and mi_collect(true): arena block at 0x%llx is still accessible (committed)", (unsigned long long)(a.start + off));
-      }
     }
   }
   // (3) repetitions do not grow the footprint
   if (!(op.a & 4)) {
     for (size_t i = 2; i < H.fp_mapped.size(); i++) {
+      if (H.fp_work[i] != H.fp_work[i - 1] || H.fp_work[i] != H.fp_work[0] || H.fp_work[i] == 0) continue;   // only between repetitions of the same workload
       if (H.fp_mapped[i] > H.fp_mapped[i - 1]) sim_violation("footprint_creep", "mapped memory grows from repetition %zu to %zu: %llu -> %llu bytes", i, i + 1, (unsigned long long)H.fp_mapped[i - 1], (unsigned long long)H.fp_mapped[i]);
-      if (H.fp_resident[i] > H.fp_resident[i - 1]) sim_violation("footprint_creep", "resident memory grows from repetition %zu to %zu: %llu -> %llu bytes", i, i + 1, (unsigned long long)H.fp_resident[i - 1], (unsigned long long)H.fp_resident[i]);
+      const bool purging = mi_option_get(mi_option_purge_delay) >= 0 && mi_option_get(mi_option_purge_decommits) != 0 && !(op.a & 2);
+      if (purging && H.fp_resident[i] > H.fp_resident[i - 1]) sim_violation("footprint_creep", "resident memory grows from repetition %zu to %zu: %llu -> %llu bytes", i, i + 1, (unsigned long long)H.fp_resident[i - 1], (unsigned long long)H.fp_resident[i]);
     }
   }
 }
